@@ -102,6 +102,8 @@ def run(tier, seed):
                    '?query'], 4,
                   [ROOTS[2]]))
     plans.append((['x1', 'x1pad', 'x2', '?query', '!dupsym'], 4, [ROOTS[1]]))
+    plans.append((['EUR', 'Tok', 'TokCHF', 'TokR', 'TokRDKK', '?query'], 5,
+                  [ROOTS[0]]))
     for names, depth, roots in plans:
         for root in roots:
             n, nfp = explore(names, depth, total, root=root)
